@@ -13,6 +13,7 @@ Exit codes of a check: 0 = held on everything explored (KNOWN-FINDING lines allo
 import hashlib
 import json
 import os
+import random
 import re
 import shutil
 import subprocess
@@ -138,7 +139,7 @@ def _stage(scratch, spec_dirs, extra_files=None):
 
 def run_tlc(scratch, spec_dirs, module, cfg, workers=None, timeout=600, simulate=None, depth=None,
             seed=None, extra_files=None, deadlock=None, coverage=False, heap=None, dfs=False,
-            extra_args=None, parse_behaviours=True, fast=False):
+            extra_args=None, parse_behaviours=True, fast=False, keep=None):
     """Run TLC on <module>.tla with <cfg> inside `scratch` (staged copy of the spec directories)."""
     _stage(scratch, spec_dirs + [os.path.join(SPECS, "common")], extra_files)
     meta = os.path.join(scratch, "md-%s-%d" % (module, int(time.time() * 1000) % 1000000))
@@ -173,8 +174,63 @@ def run_tlc(scratch, spec_dirs, module, cfg, workers=None, timeout=600, simulate
     cmd += (extra_args or [])
     cmd.append(module + ".tla")
     t0 = time.time()
-    p = subprocess.run(cmd, cwd=scratch, stdout=subprocess.PIPE, stderr=subprocess.STDOUT, text=True)
+    # TLC's output is streamed: emission runs print hundreds of megabytes of BEHAVIOUR lines, which are parsed (and, with
+    # `keep`, reservoir-sampled) on the fly instead of being held as one string
+    proc = subprocess.Popen(cmd, cwd=scratch, stdout=subprocess.PIPE, stderr=subprocess.STDOUT, text=True, errors="replace")
     r = TlcResult()
+    other, other_size = [], 0
+    rnd = random.Random(seed or 1)
+    seen_behaviours = 0
+    for line in proc.stdout:
+        if parse_behaviours and line.startswith('<<"'):
+            mm = re.match(r'<<"([A-Z_]+)", (.*)>>\s*$', line)
+            if mm:
+                tag, payload = mm.group(1), mm.group(2)
+                if tag == "BEHAVIOUR" and keep:
+                    # reservoir sampling: decide before paying for the parse
+                    seen_behaviours += 1
+                    if len(r.behaviours) >= keep:
+                        j = rnd.randrange(seen_behaviours)
+                        if j >= keep:
+                            continue
+                        slot = j
+                    else:
+                        slot = None
+                if payload.startswith('"'):
+                    # TLA+ string literal containing JSON: unescape \" and \\
+                    try:
+                        sj = json.loads(payload)
+                    except Exception:
+                        sj = payload[1:-1].replace('\\"', '"').replace("\\\\", "\\")
+                    try:
+                        val = json.loads(sj)
+                    except Exception:
+                        val = sj
+                else:
+                    try:
+                        val = json.loads(payload)
+                    except Exception:
+                        val = payload
+                if tag == "BEHAVIOUR":
+                    if keep and slot is not None:
+                        r.behaviours[slot] = val
+                    else:
+                        r.behaviours.append(val)
+                        if not keep:
+                            seen_behaviours += 1
+                else:
+                    r.printed.append((tag, val))
+                continue
+        if other_size < 8000000:
+            other.append(line)
+            other_size += len(line)
+    proc.wait()
+
+    class _P:
+        pass
+    p = _P()
+    p.returncode, p.stdout = proc.returncode, "".join(other)
+    r.behaviours_total = seen_behaviours
     r.wall = time.time() - t0
     r.rc = p.returncode
     r.out = p.stdout
@@ -184,32 +240,6 @@ def run_tlc(scratch, spec_dirs, module, cfg, workers=None, timeout=600, simulate
     m = DEPTH_RE.search(p.stdout)
     if m:
         r.depth = int(m.group(1))
-    if parse_behaviours:
-        for line in p.stdout.splitlines():
-            if line.startswith('<<"'):
-                mm = re.match(r'<<"([A-Z_]+)", (.*)>>\s*$', line)
-                if not mm:
-                    continue
-                tag, payload = mm.group(1), mm.group(2)
-                if payload.startswith('"'):
-                    # TLA+ string literal containing JSON: unescape \" and \\
-                    try:
-                        s = json.loads(payload)
-                    except Exception:
-                        s = payload[1:-1].replace('\\"', '"').replace("\\\\", "\\")
-                    try:
-                        val = json.loads(s)
-                    except Exception:
-                        val = s
-                else:
-                    try:
-                        val = json.loads(payload)
-                    except Exception:
-                        val = payload
-                if tag == "BEHAVIOUR":
-                    r.behaviours.append(val)
-                else:
-                    r.printed.append((tag, val))
     if p.returncode == 124:
         r.error = "timeout after %ds" % timeout
         return r
